@@ -39,3 +39,18 @@ Theorem C14_collector_any : forall c r L1 L2 ss1 ss2 v1 outs1 v2 outs2, concat s
 Proof. exact C14_collector_any. Qed.
 Check C14_collector_any : forall c r L1 L2 ss1 ss2 v1 outs1 v2 outs2, concat ss1 = concat ss2 -> session_ris_free (vt_new c r None) ss1 -> session_ris_free (vt_new c r None) ss2 -> run_session (vt_new c r L1) ss1 = Ok (v1, outs1) -> run_session (vt_new c r L2) ss2 = Ok (v2, outs2) -> active (vterm v1) = Primary -> strip_empty_tail (collector_total outs1 (lines (buf (vterm v1)))) = strip_empty_tail (collector_total outs2 (lines (buf (vterm v2)))).
 Print Assumptions C14_collector_any.
+
+From Avt Require Import Gen.RestFns Proofs.RestTie.
+(** SOURCE TIE BY PROOF (translate/rest2coq.py -> Gen/RestFns.v): the Rust function is REGENERATED on every run (u8/u16/u32/char as N with exact casts, isize as Z with guards on `as usize`, loops as folds or fuelled fixpoints, every Rust panic condition as a guard) and the hand-written model function is proved equal to it (=~ : equal up to the panic-site number) *)
+(** TextUnwrapper::flush regenerated *)
+Theorem C14_source_unwrapper_flush : forall st, g_unwrapper_flush st = Ok (match st with [] => None | _ => Some st end).
+Proof. exact tie_unwrapper_flush. Qed.
+Check C14_source_unwrapper_flush : forall st, g_unwrapper_flush st = Ok (match st with [] => None | _ => Some st end).
+Print Assumptions C14_source_unwrapper_flush.
+
+(** TextCollector::flush regenerated (the `while` loop as a fuelled fixpoint; any sufficient fuel) *)
+Theorem C14_source_collector_flush : forall fuel v st, length (lines (buf (vterm v))) + 1 < fuel -> g_collector_flush fuel (v, st) = Ok (collector_flush st (lines (buf (vterm v)))).
+Proof. exact tie_collector_flush. Qed.
+Check C14_source_collector_flush : forall fuel v st, length (lines (buf (vterm v))) + 1 < fuel -> g_collector_flush fuel (v, st) = Ok (collector_flush st (lines (buf (vterm v)))).
+Print Assumptions C14_source_collector_flush.
+
